@@ -246,6 +246,33 @@ def sweep(ctx, n_leaves):
                             bad(f"style:{fam}:invalid-{what}-changed", f"rejected style {what} changed the style", {"family": fam})
         finally:
             magpy.defaults.reset()
+    # names are checked at EVERY level, whichever way the value is given: a misspelt leaf below a valid first level is refused in a show()
+    # keyword (get_style), in set_children_styles and in style.update alike — never silently dropped; and the documented alias
+    # `magnetization_size` takes effect through all of them
+    with warnings.catch_warnings():
+        warnings.simplefilter("ignore")
+        try:
+            cub_ = magpy.magnet.Cuboid(dimension=(1, 1, 1), polarization=(0, 0, 1))
+            coll_ = magpy.Collection(cub_.copy(), cub_.copy())
+            ways = {"show-keyword": lambda kw: get_style(cub_, magpy.defaults, **{"style_" + k_: v_ for k_, v_ in kw.items()}),
+                    "set_children_styles": lambda kw: coll_.set_children_styles(**kw),
+                    "style.update": lambda kw: cub_.copy().style.update(**kw)}
+            for bad_kw in ({"path_line_widht": 3}, {"magnetization_shwo": False}, {"path_marker_sybmol": "o"}, {"magnetization_arrow_widht": 2}):
+                for wname, wf in ways.items():
+                    stats["misspelt-nested"] = stats.get("misspelt-nested", 0) + 1
+                    try:
+                        wf(bad_kw)
+                        bad(f"style:misspelt-nested-name-accepted:{wname}", f"{wname} with the misspelt name {list(bad_kw)[0]!r} (valid first level) did not raise", {"way": wname, "keyword": list(bad_kw)[0]})
+                    except Exception:  # noqa: BLE001
+                        pass
+            st_ = get_style(cub_, magpy.defaults, style_magnetization_size=3)
+            coll_.set_children_styles(magnetization_size=0.5)
+            got_ = (st_.magnetization.arrow.size if hasattr(st_.magnetization, "arrow") else None, coll_.children[0].style.magnetization.arrow.size)
+            stats["alias-through-show"] = stats.get("alias-through-show", 0) + 1
+            if got_ != (3, 0.5):
+                bad("style:alias-magnetization-size-dropped", f"the alias magnetization_size given as show() keyword / through set_children_styles has no effect: resolved arrow sizes {got_}, expected (3, 0.5)", {"got": list(got_)})
+        finally:
+            magpy.defaults.reset()
     # the effective style does not depend on where or how often an object is drawn: a collection of magnets shown in several
     # subplots of one figure looks the same in each of them as in a single plot (arrow mode from a show() keyword, from the
     # object's style or from the family default)
